@@ -71,6 +71,12 @@ func loadEngine(repo string, patterns []string, overlay map[string][]byte) (*Eng
 		fn := eng.resolveTarget(con.PkgPath, con.Target)
 		if fn == nil {
 			eng.errorf("%s: contract target %s not found (contract target changed)", con.Pos, key)
+			if len(con.Props) > 0 {
+				if eng.errProps == nil {
+					eng.errProps = map[string][]string{}
+				}
+				eng.errProps[eng.errors[len(eng.errors)-1]] = con.Props
+			}
 			continue
 		}
 		eng.conOf[fn] = con
@@ -307,6 +313,7 @@ func (vc *VC) runTop() {
 			}
 			env := &SpecEnv{vc: vc, fn: nil, pkgPath: ax.PkgPath, binds: map[string]Val{}, cur: vc.entry, old: vc.entry}
 			vc.assume(env.boolExpr(ax.Expr))
+			vc.usedAxioms = append(vc.usedAxioms, ax)
 			vc.note("axiom " + ax.Name + " (" + ax.Pos + "): " + ax.Text)
 		}
 		// owned parameters: treated as protected objects (fields survive calls)
@@ -385,6 +392,17 @@ func (vc *VC) runTop() {
 	if con.ModSet {
 		vc.frameObligations(exit, binds)
 	}
+	if len(con.Keeps) > 0 {
+		// one goal per return: the merged exit heap is an ite over the return
+		// states, which quantifier instantiation handles badly
+		if len(fr.rets) > 1 && len(fr.rets) <= 40 {
+			for _, r := range fr.rets {
+				vc.keepsOblige(con, vc.entry, r.st, "keeps", fn.Pos())
+			}
+		} else {
+			vc.keepsOblige(con, vc.entry, exit, "keeps", fn.Pos())
+		}
+	}
 }
 
 // frameObligations: every heap variable not named by `modifies` is unchanged on
@@ -424,6 +442,10 @@ func (vc *VC) frameObligations(exit *State, binds map[string]Val) {
 			var conds []Term
 			conds = append(conds, "(< (at "+r+") "+vc.entry.heap["CLK"]+")")
 			for _, l := range locs[name] {
+				if strings.HasPrefix(l, "RANGE:") {
+					conds = append(conds, "(not "+strings.ReplaceAll(strings.TrimPrefix(l, "RANGE:"), "?r", r)+")")
+					continue
+				}
 				conds = append(conds, "(not (= "+r+" "+l+"))")
 			}
 			goal = smtImp(smtAnd(conds...), fmt.Sprintf("(= (select %s %s) (select %s %s))", b, r, a, r))
